@@ -9,7 +9,7 @@ TRUSTED = ["the tables the theorems range over are regenerated from the imported
            "enum members with all attributes, both port tables, and the 4 x 9 class-acceptance table obtained by calling each real "
            "constructor with each DeviceType"]
 ASSUMPTIONS = ["the four device classes and their categories are fixed by name in Spec/Tables.v class_category"]
-RULE = ("exhaustive: all 36 (class, type) pairs, each constructor called under both device states and varied other fields, all 9 types (code, protocol, category), all 4 categories in both port "
+RULE = ("exhaustive: all 36 (class, type) pairs, each constructor called under both device states and varied other fields, all 65536 two-byte model codes through the broadcast parser (a type exactly for the nine codes of the protocol), all 9 types (code, protocol, category), all 4 categories in both port "
         "tables; each compared with the regenerated Coq table and judged against the property, once at import and once after a bridge heard every family on ports of its own and both API classes ran an operation; non-trivial = distinct table rows")
 REQUIREMENT = ("class accepts type iff same category; model codes unique 4-hex-digit; protocol 1 -> UDP 20002 / TCP 9957, protocol 2 -> "
                "UDP 20003 / TCP 10000; every category present in both port tables")
@@ -56,7 +56,28 @@ def exercise():
     asyncio.run(go())
 
 
+def codes_sweep(out):
+    """every two-byte model code through the broadcast parser: a device type comes out exactly for the nine codes of the table"""
+    from aioswitcher.bridge import DatagramParser
+    gen = open(os.path.join(lib.COQ, "theories", "Gen", "Extracted.v")).read()
+    table = {m.group(2): m.group(1) for m in re.finditer(r'\("(\w+)", "[^"]*", "([0-9a-f]{4})", \d%N, "\w+"\)', gen)}      # regenerated Coq table: code -> type
+    spec = {t.hex_rep: t.name for t in DeviceType}          # the property: each type has its own code; the parser must name a type for exactly these
+    base = bytearray(165); base[0:2] = b"\xfe\xf0"
+    io = []; mo = []; ex = []; cases = []
+    for code in range(65536):
+        b = code.to_bytes(2, "big"); base[74:76] = b
+        try:
+            t = DatagramParser(bytes(base)).get_device_type(); i = t.name if t is not None else "none"
+        except Exception as e: i = "raised " + type(e).__name__
+        h = b.hex()
+        if i != "none" or h in table or h in spec:
+            cases.append({"code": h}); io.append(i); mo.append(table.get(h, "none")); ex.append(spec.get(h, "none"))
+    out.stream("all-65536-model-codes-through-the-parser", 65536)
+    lib.differential(out, "model-codes-that-name-a-type", cases, io, mo, ex, lambda c: "broadcast model code %s" % c["code"], sample=lambda c: c)
+
+
 def run(tier, rnd, out):
+    codes_sweep(out)
     tables(out, "")
     exercise()
     tables(out, "-after-the-library-was-used")
